@@ -67,6 +67,9 @@ def generate(seed, tier):
         p_back=.3 if circ else 0, w_iserror=0, p_alias=.25, p_arrlit=.06,
     )
     world = gen_world(rng, prof)
+    if sw.chance(.35):
+        from ..world import add_named_block
+        add_named_block(Rng(seed, 'namedblock'), world)
     srng = Rng(seed, 'sched')
     kind = srng.weighted([('dict', 3), ('file', 2)])
     pl = identity_placement(world) if srng.chance(.4) else gen_placement(
@@ -92,9 +95,10 @@ def generate(seed, tier):
             srcs = [j for j, o in enumerate(objs) if is_model(objs, j)]
             # besides constant cells, a defined name or a (fully populated)
             # multi-cell range may be an input of the compiled function
-            extra = [tg for tg in C07.gen_targets(orng, world, 2, True)
-                     if tg[0] in ('name', 'range')][:1] \
-                if orng.chance(.4) else []
+            extra = sorted([tg for tg in C07.gen_targets(orng, world, 4, True)
+                            if tg[0] in ('name', 'range')],
+                           key=lambda tg: tg[0] != 'name')[:1] \
+                if orng.chance(.6) else []
             objs.append({'kind': 'compile', 'src': orng.pick(srcs),
                          'targets': extra,
                          'inputs': sorted(orng.sample(consts, orng.randrange(
@@ -156,6 +160,7 @@ def gen_op(rng, world, objs, j, kind_file):
         op['inputs'] = C07.gen_inputs(rng, world, rng.randrange(0, 4),
                                       blanks=rng.chance(.5))
         op['outputs'] = None
+        op['write'] = rng.chance(.3)   # followed by write(): books observed
     elif k == 'add':
         op['cell'] = gen_added_cell(rng, world)
         if op['cell'] is None:
@@ -233,7 +238,22 @@ def fresh_model(world, s, adds):
     return m
 
 
-def observe_model(world, s, m, ins, adds, all_adds=()):
+def books_digest(books):
+    """What write() returned: every cell of every sheet of every book."""
+    from formulas.excel import BOOK
+    out = []
+    for key in sorted(books):
+        wb = books[key][BOOK]
+        for ws in wb.worksheets:
+            for row in ws.iter_rows():
+                for c in row:
+                    if c.value is not None:
+                        out.append([key, ws.title, c.coordinate,
+                                    repr(c.value)])
+    return sorted(out)
+
+
+def observe_model(world, s, m, ins, adds, all_adds=(), write=False):
     """Observables of one calculation: every world cell and name, plus every
     cell that ANY object of the run ever adds (a cell added to another object
     must stay absent here)."""
@@ -245,6 +265,11 @@ def observe_model(world, s, m, ins, adds, all_adds=()):
         key, _ = added_item(world, P, cell)
         o['add@%s' % (cell['at'],)] = norm_value(sol[key]) \
             if key in sol else MISSING
+    if write:
+        try:
+            o['written'] = books_digest(m.write())
+        except Exception as ex:
+            o['written'] = 'raised %s' % type(ex).__name__
     return o
 
 
@@ -397,12 +422,13 @@ def execute(trace, env=None):
                     log.add('actor%d' % j, 'calc-unobserved')
                     continue
                 got = observe_model(world, s, o.obj, op['inputs'], o.adds,
-                                    all_adds)
+                                    all_adds, op.get('write', False))
                 ref = refs.get(si)
                 if ref is None:
                     ref = observe_model(world, s,
                                         fresh_model(world, s, o.adds),
-                                        op['inputs'], o.adds, all_adds)
+                                        op['inputs'], o.adds, all_adds,
+                                        op.get('write', False))
                 stats['indep_compared'] += 1
                 o.observations += 1
                 used_inputs.setdefault(j, []).append(digest(op['inputs']))
@@ -502,7 +528,7 @@ def precompute_refs(trace, world, s, P, all_adds, stats):
             if k == 'calc' and not changed[j]:
                 refs[si] = observe_model(
                     world, s, fresh_model(world, s, adds[j]), op['inputs'],
-                    adds[j], all_adds)
+                    adds[j], all_adds, op.get('write', False))
             elif k == 'call' and spec_of.get(j):
                 fm = fresh_model(world, s, adds[j])
                 ff = compile_func(world, P, fm, spec_of[j])
